@@ -181,6 +181,11 @@ def q_r2_keywords(p: Project, schema: Schema, rep: Report):
                         rep.check("Q-R2", key, False, f"{m.name} declares no single child '{k.arg}'", loc(p, c))
                         continue
                     ok, why = True, ""
+                    # the caller's value overwritten on some path before it is used (`if a == b: a = None`)
+                    for nm_ in [x_ for x_ in ast.walk(k.value) if isinstance(x_, ast.Name) and x_.id in params]:
+                        for d_ in reach.defs_at(node, nm_.id):
+                            if d_.kind == "assign" and isinstance(d_.value, ast.Constant) and d_.value.value is None:
+                                ok, why = False, f"{m.name}.{k.arg} is given the parameter `{nm_.id}`, which line {d_.stmt.lineno} has replaced by None on some path: what the caller passed is silently left out of the request there"
                     for v in resolve_values(k.value, node, reach):
                         okv, whyv = _value_matches(p, schema, m, ch, k.arg, v, params, fn)
                         if not okv:
